@@ -15,7 +15,8 @@ TEXT = {
     "C01": ("lock-step differential testing against an independent reference model; encodings enumerated, states by rapid generators",
             "Every one of the 930 implemented encodings is stepped from rapid-generated pre-states (edge-biased registers, all F values, wrap and aliasing shapes) and compared "
             "with an independently written Z80 model on the complete architectural state, flags under the mask on which Z80 chips agree, memory image and port output; multi-Step "
-            "byte-soup programs are compared after every Step. A pass means no counterexample among the generated cases (10^7..10^9 per run), not absence.",
+            "byte-soup programs (a third with interrupt requests, some raised by device callbacks in mid-Step) and the repository's exerciser images run as 50 000..300 000-Step programs on one CPU value are compared after every Step; "
+            "thorough adds native coverage-guided fuzzing of the soup generator (rapid.MakeFuzz). A pass means no counterexample among the generated cases (10^7..10^9 Steps per run), not absence.",
             "Trusted: the reference model in harness/ref (algorithmic decode, bit-serial ALU, DAA table from Young), itself validated on every setup against 132 of the 134 "
             "zexdoc/zexall CRCs (the two BIT n,(HL)/(IX+d) groups depend on MEMPTR, which the property leaves unspecified).",
             "DESIGN.md sections 4.2, 5 C01"),
@@ -33,17 +34,19 @@ TEXT = {
     "C04": ("enumeration of all F / B values per conditional opcode x rapid-drawn placements against a directly written oracle, plus model-free round trips",
             "For every drawn placement (PC, SP, target, stack bytes incl. wrap and stack-overlaps-instruction shapes) all 256 F values are run through all 28 conditional opcodes, all 256 B through DJNZ, "
             "all 256 offsets through JR/DJNZ, and the unconditional / PUSH / POP forms once; post-state, exact stack reads and writes and 'no access when untaken' are compared with the manual's condition "
-            "table and push/pop rule; CALL;RET and PUSH;POP round trips are checked without any model.",
+            "table and push/pop rule; CALL;RET and PUSH;POP round trips are checked without any model; generated call/return programs (return slot rewritten, patched-jump idiom) run in lock-step with the "
+            "reference model and once more under CPU.Run, which must end in the same state.",
             "Trusted: the condition table and stack rule written in c04_test.go (independent of harness/ref).",
             "DESIGN.md section 5 C04"),
     "C05": ("differential comparison of per-Step access logs (recording bus) against the reference model's own accesses",
             "Every implemented encoding is stepped on a recording memory / port device whose port reads return data depending on port and read index; the per-address sequence of reads and writes and the "
-            "ordered port log are compared with the model's. Pointer aliasing puts operands on the instruction bytes and at 0xFFFF.",
+            "ordered port log are compared with the model's. Pointer aliasing puts operands on the instruction bytes and at 0xFFFF. Multi-Step soups (repeating block instructions re-fetch) and the exerciser "
+            "images as long programs are compared Step by Step as well.",
             "Trusted: the access list the model emits (appendix A.6); global order between different addresses is deliberately not compared.",
             "DESIGN.md section 5 C05"),
     "C06": ("exhaustive control-bit matrix x sampled data, and rapid state-machine histories, against an interrupt-controller model",
             "The complete matrix type x mode x IFF1 x IFF2 x running/parked is enumerated with all RST p, CALL, all 128 even vectors; histories of EI/DI/RETN/RETI/IM/HALT steps and requests raised at any time "
-            "(nesting >= 3 in most sequences) are compared Step by Step; all 930 encodings are checked for flip-flop and handler-notification side effects. Both legal timings after EI and both legal return "
+            "(also by a device callback in the middle of a Step or of an acknowledge; nesting >= 3 in most sequences) are compared Step by Step; all 930 encodings are checked for flip-flop and handler-notification side effects. Both legal timings after EI and both legal return "
             "addresses for a CPU parked on HALT are accepted.",
             "Trusted: ref.Accept (appendix A.5). Known finding im0-executes-at-pc is recognised only when the emulator's result equals the model with exactly that quirk enabled.",
             "DESIGN.md section 5 C06"),
@@ -74,7 +77,7 @@ TEXT = {
             "DESIGN.md section 5 C11"),
     "C12": ("robustness fuzzing: deterministic prefix sweep, rapid-generated byte strings and (thorough) native coverage-guided go fuzzing, with a semantic oracle for invalid opcodes",
             "Arbitrary bytes are decoded into registers (any IM), memory kind and length (biased to the addresses in use +-1), IO kind, program bytes at PC and at 0xFFF0.., and an interrupt schedule with any "
-            "Type and 0..65537 data bytes; up to 64 Steps under recover; an opcode logged as invalid must change only PC and R and consume exactly the bytes it read; programs seen to halt must make Run return.",
+            "Type and 0..65537 data bytes (a quarter raised by the memory itself in mid-Step; an exhaustive sweep of second requests raised during an acknowledge); up to 64 Steps under recover and a watchdog; an opcode logged as invalid must change only PC and R and consume exactly the bytes it read; programs seen to halt must make Run return.",
             "Cannot show termination of Run for programs not observed to halt (outside the property).",
             "DESIGN.md section 5 C12"),
     "C13": ("schedule-owning fault injection: cancellation instants generated by the harness, Step-driven twin, goroutine accounting, race detector",
@@ -84,7 +87,7 @@ TEXT = {
             "DESIGN.md section 5 C13"),
     "C14": ("enumeration of all 256 R values x I values per encoding plus rapid-drawn states against the fetch-count rule",
             "All 930 encodings x all 256 starting R x several I values are stepped and R/I compared with the fetch-count rule (1 / 2 / DDCB 2-or-3, bit 7 kept, LD R,A / LD I,A only writers); "
-            "LD A,R / LD A,I over all R x IFF2 x all F; multi-Step programs with block repeats and HALT.",
+            "LD A,R / LD A,I over all R x IFF2 x all F; multi-Step programs with block repeats and HALT; short memories; the exerciser images as long programs.",
             "Trusted: the prefix-class table of the reference model.",
             "DESIGN.md section 5 C14"),
     "C15": ("model-based stateful testing (rapid) against array / map models",
